@@ -352,7 +352,7 @@ func (n *WorkflowNode) checkAndAddMappedPath(paths []FieldPath) error {
 		}
 
 		// two spellings of one field (promoted from an embedded struct, or reached through it) must meet in the trie
-		targetPath = canonicalTargetPath(n.g.getNodeInputType(n.key), targetPath)
+		targetPath = canonicalTargetPath(n.inputType(), targetPath)
 
 		if len(targetPath) == 0 {
 			// mapping to the entire input conflicts with every other mapping of this node
@@ -391,6 +391,16 @@ func (n *WorkflowNode) checkAndAddMappedPath(paths []FieldPath) error {
 	}
 
 	return nil
+}
+
+// inputType is the input type of the node as far as the graph knows it: nil for a passthrough node that
+// has not been given a type yet, and for a node the graph never accepted (added under a key that is
+// already taken, or after a successful Compile), which has a WorkflowNode but no graph node.
+func (n *WorkflowNode) inputType() reflect.Type {
+	if _, ok := n.g.nodes[n.key]; !ok && n.key != START && n.key != END {
+		return nil
+	}
+	return n.g.getNodeInputType(n.key)
 }
 
 // canonicalTargetPath spells out the fields of a target path that are promoted from embedded structs: with
